@@ -834,7 +834,17 @@ SELFTEST_FILES = {
         "        self.own.update({1: 2})\n"              # NOT shared
         "    @classmethod\n"
         "    def cm(cls):\n"
-        "        cls.SHARED['k'] = 1\n"),
+        "        cls.SHARED['k'] = 1\n"
+        "from dataclasses import dataclass, field\n"
+        "@dataclass\n"
+        "class Rep:\n"
+        "    items: list = field(default_factory=list)\n"
+        "    HID = []\n"
+        "    def __post_init__(self):\n"
+        "        self.HID = []\n"
+        "    def add(self, x):\n"
+        "        self.items.append(x)\n"                # NOT shared (dataclass field)
+        "        self.HID.append(x)\n"),                # NOT shared (instance attribute hides the class-level list)
     "unreachable_mod.py": "import random\nX = []\ndef f():\n    X.append(random.random())\n",
 }
 
